@@ -319,6 +319,16 @@ def orderPairsBad (ts : List Task) (sel started : List Tok) : List (Tok × Tok) 
           && !(closureOf ts (s.take (i + 1))).contains b
       then some (a, b) else none
 
+/-- abstraction of the serial dispatcher (`TaskDispatcher._dispatcher_generator` takes the next selected task only when
+    nothing is ready or waiting): the selected tasks are worked off one after the other — for every `j`, whatever is
+    started of the closure of the first `j+1` selected tasks is started before anything outside that closure -/
+def chunkAt (C started : List Tok) : Bool :=
+  started.all fun x => started.all fun y =>
+    !(C.contains x && !C.contains y) || decide (idxOf started x < idxOf started y)
+
+def chunkedB (ts : List Task) (sel started : List Tok) : Bool :=
+  (List.range (addNew [] sel).length).all fun j => chunkAt (closureOf ts ((addNew [] sel).take (j + 1))) started
+
 structure Obs where
   exit : Nat
   processed : List Tok       -- tasks the reporter heard of
